@@ -410,7 +410,8 @@ def length_partition(func, bits):
             if v is not None:
                 consts.add(v)
     top = (1 << bits) - 1
-    cuts = sorted({c for c in consts if 0 < c <= top})
+    # value is only compared with these constants: `< c` / `>= c` change their outcome at c, `<= c` / `> c` at c + 1
+    cuts = sorted({x for c in consts for x in (c, c + 1) if 0 < x <= top})
     bounds = [0] + cuts + [top + 1]
     # `value` may only be compared
     pname = func.params[0]['name']
